@@ -26,8 +26,8 @@ RULE = ('operation lines = well-formed stream + separate malformed stream + boxe
         'each line runs on the real crate in two build profiles and on the Lean model (L1 mirror and L0 positional spec); '
         'distinct = distinct lines; non-trivial = the line has a value / byte-string token of at least 2 bytes '
         'or is a malformed-input line')
-ASSUMPTIONS = ['hex decoders take &str: bytes 0xc0, 0xc1, 0xf5..0xff cannot occur in valid UTF-8 and are covered by the '
-               'decode_nibble theorem only, not by execution',
+ASSUMPTIONS = ['hex decoders take &str: bytes 0xc0, 0xc1, 0xf5..0xff cannot occur in valid UTF-8; they reach decode_hex_byte only '
+               'through the `c16.hook.*` lines (crypto_bigint::verif_hooks; thorough tier: all 65 536 byte pairs)',
                'serde is exercised through bincode 1 only (binary form); the human-readable hex form is not executed',
                'Rust primitive to/from_{be,le}_bytes, `as` casts and core::fmt integer formatting are trusted']
 
@@ -90,6 +90,36 @@ def utf8_specials():
     for s in out:
         s.decode('utf-8')     # generator self-check: all are valid
     return out
+
+
+def hook_lines(tier, rng):
+    """`c16.hook.*`: crate-internal decode_hex_byte([a, b]) through crypto_bigint::verif_hooks — all byte values,
+    also those that cannot occur in a &str (0xc0, 0xc1, 0xf5..0xff, lone continuation bytes).
+    thorough: every one of the 65 536 byte pairs for both ops; quick: a 64 x 64 structured subset (every range end
+    and its neighbours, all 22 hex digits, 0x00/0x7f/0x80/0xff, the non-UTF-8 bytes, some random bytes) for the exact
+    (byte, err) op, plus all 484 valid pairs and the range-end x range-end pairs for the validity op."""
+    digits = [ord(c) for c in '0123456789abcdefABCDEF']
+    if tier != 'quick':
+        for a in range(256):
+            for b in range(256):
+                yield f"c16.hook.decode_hex_byte {a:x} {b:x}"
+                yield f"c16.hook.hex_pair {a:x} {b:x}"
+        return
+    ends = [0x2f, 0x30, 0x39, 0x3a, 0x40, 0x41, 0x46, 0x47, 0x60, 0x61, 0x66, 0x67]
+    S = list(dict.fromkeys(digits + ends + [0x00, 0x01, 0x7f, 0x80, 0xff, 0xfe, 0xc0, 0xc1, 0xf5, 0xbf, 0x20, 0x2e, 0x3b, 0x48,
+                                            0x5f, 0x68, 0x10, 0x0f, 0xb0, 0xd0]))
+    while len(S) < 64:
+        c = rng.randrange(256)
+        if c not in S:
+            S.append(c)
+    for a in S:
+        for b in S:
+            yield f"c16.hook.decode_hex_byte {a:x} {b:x}"
+    E = list(dict.fromkeys(ends + [0x00, 0x7f, 0x80, 0xff, 0xc0, 0xf5]))
+    for a, b in dict.fromkeys([(a, b) for a in digits for b in digits] + [(a, b) for a in E for b in E] +
+                              [(a, b) for a in E for b in digits[::3]] + [(a, b) for a in digits[::3] for b in E] +
+                              [(rng.randrange(256), rng.randrange(256)) for _ in range(200)]):
+        yield f"c16.hook.hex_pair {a:x} {b:x}"
 
 
 def gen(tier, rng):
@@ -368,6 +398,10 @@ def gen(tier, rng):
         yield f"c16.u.serde_de {n} x"
         yield f"c16.u.serde_de {n} {xb((1 << 63).to_bytes(8, 'little') + body)}"
         yield f"c16.u.serde_de {n} {xb(nb.to_bytes(8, 'big') + body)}"
+
+    # ------------------------------------------------------------------ crate-internal decode_hex_byte through the hooks
+    # (emitted last from its own PRNG stream: the public lines above are the same as before the hooks existed)
+    yield from hook_lines(tier, random.Random(rng.getrandbits(32)))
 
 
 def canon(line, out):
